@@ -78,10 +78,8 @@ def run(ctx):
     ctx.cov["exhaustive"] = True
     cfgs = ["Gen_Streams.quick.cfg"] if ctx.tier == "quick" else ["Gen_Streams.quick.cfg", "Gen_Streams.thorough.cfg"]
     for cfg in cfgs:
-        r = tlc_must_pass(TLA, os.path.join(SPEC, cfg), "gen_streams", workers=8, timeout=1800)
+        r, inits, edges = gen_run(TLA, os.path.join(SPEC, cfg), "gen_streams", workers=8, timeout=1800)
         ctx.add_mc(r, cfg)
-        inits = parse_tagged(r.out_path, "INIT")
-        edges = parse_tagged(r.out_path, "EDGE")
         hists, covered = edges_to_histories(inits, edges, chunk=50)
         prog = []
         nh = 0
